@@ -1,7 +1,7 @@
 """C16 — resizing and padding follow the named boundary rule; cropping undoes extension.
 
 Tie to /repo:
-  (T) tools/extract/padslices.py regenerates Gen/PadSlices.lean (the per-mode inner/outer
+  (T) tools/extract/padslices.py regenerates Gen/PadSlices.lean (the guard table of `_apply_padding` and the per-mode inner/outer
       slice arithmetic of `_padding_slices_inner/_outer`) from the live source.
   (C) `odl.util.numerics.resize_array` on real integer-valued arrays (1-3 axes, every pad
       mode x direction, grow/shrink/same mixes, every admissible offset and the first
@@ -473,7 +473,8 @@ def array_stream(ctx, deep=False, model=True):
             arr = arr0.copy()
         if not valid_offsets(case):
             # no placement of the smaller array inside the larger one: must be refused
-            problems = [] if status == 'err:offset' else [
+            refused = status == 'err:offset' or status.startswith('err:ValueError:')
+            problems = [] if refused else [
                 'offset outside [0, |n_new - n_orig|] was not refused: ' +
                 (status if res is None else 'returned {}'.format(res.ravel().tolist()[:8]))]
         else:
@@ -901,7 +902,7 @@ def replay(ctx, case):
         if ilist(arr) != ilist(arr0):
             return 'the input array was modified by the call'
         if not valid_offsets(case):
-            return None if status == 'err:offset' else \
+            return None if status == 'err:offset' or status.startswith('err:ValueError:') else \
                 'offset outside [0, |n_new - n_orig|] was not refused: ' + status
         problems = oracle_array(case, arr, status, res, True)
         return '; '.join(problems) if problems else None
